@@ -1255,7 +1255,12 @@ func (p *Posix) CreateMultipartUpload(ctx context.Context, mpu s3response.Create
 	tmppath := filepath.Join(bucket, objdir)
 	// the unique upload id is a directory for all of the parts
 	// associated with this specific multipart upload
-	err = os.MkdirAll(filepath.Join(tmppath, uploadID), 0755)
+	// (backend.MkdirAll, unlike os.MkdirAll, does not re-create the bucket
+	// directory itself when DeleteBucket has removed it meanwhile)
+	err = backend.MkdirAll(filepath.Join(tmppath, uploadID), 0, 0, false, 0755)
+	if errors.Is(err, s3err.GetAPIError(s3err.ErrNoSuchBucket)) {
+		return s3response.InitiateMultipartUploadResult{}, err
+	}
 	if err != nil {
 		return s3response.InitiateMultipartUploadResult{}, fmt.Errorf("create upload temp dir: %w", err)
 	}
